@@ -168,6 +168,7 @@ class PubWalk(object):
         self.await_ack = {0: [], 1: []}      # rids sent, no PUBACK/PUBREC yet (qos>0)
         self.await_comp = {0: [], 1: []}     # rids with PUBREC received, no PUBCOMP yet
         self.dead = set()                    # rids whose Deferred failed, or (QoS 0) dropped by a purge
+        self.doomed = set()                  # QoS>0 rids held back when a clean session was established
         self.done = set()                    # rids completed (acked) or QoS 0 transmitted
         self.window = {}                     # conn idx -> window size in force
         self.timeout = {}                    # conn idx -> initial timeout in force
@@ -257,6 +258,10 @@ class PubWalk(object):
     def _drop_unsent_q0(self, a, before_conn=None):
         for rid in self.accepted[a]:
             ri = self.F.info[rid]
+            if before_conn is not None and ri.qos and rid not in self.sent and ri.conn is not before_conn:
+                # carried over into a clean session and never sent: about to be failed by the purge.  Its
+                # errback may not have run yet when a callback of an earlier one publishes again.
+                self.doomed.add(rid)
             if ri.qos == 0 and rid not in self.sent:
                 if before_conn is None or ri.conn is not before_conn:
                     self.dead.add(rid)
@@ -277,10 +282,13 @@ def mon_c10(w, F, vd):
         for rid in pw.accepted[a]:
             if rid >= ri.rid:
                 break
-            if rid not in pw.sent and rid not in pw.dead:
+            if rid not in pw.sent and rid not in pw.dead and rid not in pw.doomed:
                 vd.bad("C10.overtaken", "publish #%d (qos %d) first sent while earlier publish #%d (qos %d) is still held back" % (
                     ri.rid, ri.qos, rid, F.info[rid].qos))
                 break
+        later = [rid for rid in pw.sent if rid > ri.rid and F.info[rid].a == a]
+        if later:
+            vd.bad("C10.order", "publish #%d first sent after the later publish #%d" % (ri.rid, min(later)))
         # (a) the bound
         if ri.qos:
             wnd = pw.window.get(e.c, 1)
